@@ -4,12 +4,14 @@ import time
 from vlib.common import finish
 from vlib.bounded import Bounded
 from harness import c18 as driver
+from checks._proof import proof_subobligations
 
 PROP = 'C18'
 
 
 def run():
     t0 = time.time()
+    pv, pu, pe, ppart, passumed = proof_subobligations(PROP, ['contracts.c18_cells'], ['ak.xlsread'])
     b = Bounded(PROP, 'harness.c18')
     driver.run(b)
     nv = driver.variants(b.tier)
@@ -60,4 +62,10 @@ def run():
         "runs exist (first-run choice is a diagnostic)",
         f"bounded: {nv} sheets per layout, sheets of at most 5 data rows and 37 columns",
     ]
-    return finish(PROP, 'exploration', b.violations(), [], b.errors, cov, assumptions, t0)
+    cov.update(ppart)
+    _seen, _viol = set(), []
+    for _v in pv + b.violations():
+        if _v.key not in _seen:
+            _seen.add(_v.key)
+            _viol.append(_v)
+    return finish(PROP, 'exploration', _viol, pu, pe + b.errors, cov, passumed + assumptions, t0)
